@@ -74,8 +74,14 @@ func (f *FS) Clone() *FS {
 var ErrNoSpace = &os.PathError{Op: "write", Path: "", Err: syscall.ENOSPC}
 var ErrIO = &os.PathError{Op: "write", Path: "", Err: syscall.EIO}
 
+// Yield, when set by a scenario, makes every file-system operation a schedule point.
+var Yield func(site string)
+
 // step logs an operation and applies the plan; returns an injected error or nil.
 func (f *FS) step(kind, name string) error {
+	if y := Yield; y != nil {
+		y("simfs." + kind)
+	}
 	f.N++
 	f.Log = append(f.Log, fmt.Sprintf("%d:%s(%s)", f.N, kind, name))
 	if p := f.Plan; p != nil {
